@@ -11,6 +11,9 @@ RULE = ("K: random nested values (TreeClass instances of three harness classes w
         "Compared exactly with the model: parsed operation list, ok/error, the result value, the original after the call. "
         "Independent oracle on the implementation: deep value+identity snapshot of the original before/after, type of the result, "
         "result == pure update of the snapshot at the intended path, no container on the result's spine is the original's. "
+        "A dedicated stream (96 quick cases) always generates paths that end in, or pass through, a dict key that does not exist yet, "
+        "on dicts nested 1-3 levels below plain and frozen fields (through dicts and lists), with create_new_ok on (3/4) and off. "
+        "The deep value+identity+key-set snapshot of the original is compared before/after in EVERY case, error cases included. "
         "non-trivial = path of length >= 2 or any perturbed/malformed case.")
 
 _env = None
@@ -500,10 +503,52 @@ def make_case(ctx, rng, i):
     return case
 
 
+def make_dictkey_case(rng, i):
+    """dedicated stream: a path that ends in (or passes through) a dict key that does not exist yet, on dicts nested
+    1-3 levels deep below plain and frozen fields, with create_new_ok on and off"""
+    ci = rng.randint(0, 2)
+    field = rng.choice(E()["fields"][ci])
+    depth = 1 + i % 3
+    inner_keys = rng.shuffle(["k", "b", "a", "name", "opts"])[:rng.randint(0, 3)]
+    node = ["D", [[k, gen_desc(rng, 1)] for k in inner_keys]]
+    ops = []
+    for lvl in range(depth - 1):
+        if rng.chance(0.6):
+            key = rng.choice(["opts", "inner", "d"])
+            node = ["D", [[key, node]] + [[k, ["i", rng.randint(0, 9)]] for k in rng.shuffle(["x", "y"])[:rng.randint(0, 2)]]]
+            ops.insert(0, ("key", key))
+        else:
+            pos = rng.randint(0, 2)
+            items = [["i", rng.randint(0, 9)] for _ in range(pos)] + [node] + [["i", 7] for _ in range(rng.randint(0, 1))]
+            node = ["A", items]
+            ops.insert(0, ("idx", pos if rng.chance(0.6) else pos - len(items)))
+    fields = {f: (node if f == field else gen_desc(rng, 1)) for f in E()["fields"][ci]}
+    rootd = ["O", ci, fields]
+    ops.insert(0, ("attr", field))
+    variant = ["last-missing", "last-missing", "inner-missing", "existing"][i % 4] if inner_keys else ["last-missing", "inner-missing"][i % 2]
+    new_key = rng.choice(["new", "zz", "new key", "K9"])
+    if variant == "last-missing":
+        ops.append(("key", new_key))
+    elif variant == "inner-missing":
+        ops += [("key", new_key), rng.choice([("key", "k"), ("idx", 0), ("attr", "a")])]
+    else:
+        ops.append(("key", inner_keys[0]))
+    create = 1 if i % 8 < 6 else 0
+    return {"root": rootd, "val": gen_desc(rng, rng.randint(0, 1)), "path": render(rng, ops), "create": create, "valid": None,
+            "intended": [list(o) for o in ops], "tag": "dictkey-" + variant, "real": False, "depth": depth}
+
+
 def run(ctx):
     E()
     pend = []
     n = ctx.scale(400, 4000)
+    for i in range(ctx.scale(96, 600)):
+        case = make_dictkey_case(ctx.rng, i)
+        d, st = evaluate(ctx, case, pend)
+        ctx.case(sample=case if i == 0 else None, nontrivial=("dictkey", i), kind=case["tag"], status=st, create=case["create"],
+                 pathlen=len(case["intended"]), dictkey_depth=case["depth"])
+        if d:
+            ctx.violation(case, d)
     # malformed strings: every curated one once (parse only + aset on a fixed object)
     for s in MALFORMED:
         case = {"root": ["O", 0, {"a": ["A", [["D", [["k", ["i", 1]]]], ["i", 2]]], "b": ["i", 0], "c": ["n"]}],
@@ -542,7 +587,14 @@ def search(ctx, hints):
                 return
     rng = ctx.rng.fork()
     found = []
-    for i in range(6000):
+    for i in range(200):
+        case = make_dictkey_case(rng, i)
+        d, _ = evaluate(ctx, case)
+        if d:
+            found.append((len(str(case["root"])), case, d))
+            if len(found) >= 5:
+                break
+    for i in range(0 if found else 6000):
         case = make_case(ctx, rng, i * 12 + 1)     # synthetic only
         if case is None:
             continue
